@@ -16,6 +16,9 @@ func (k msgServer) IncreaseLiquidity(ctx context.Context, msg *types.MsgIncrease
 	if _, err := k.addressCodec.StringToBytes(msg.Sender); err != nil {
 		return nil, errorsmod.Wrap(err, "invalid sender address")
 	}
+	if msg.AmountBase.IsNil() || msg.AmountQuote.IsNil() || msg.MinAmountBase.IsNil() || msg.MinAmountQuote.IsNil() {
+		return nil, errorsmod.Wrap(types.ErrInvalidTokenAmounts, "amounts and min amounts cannot be empty")
+	}
 	// end static validation
 
 	sdkCtx := sdk.UnwrapSDKContext(ctx)
@@ -64,10 +67,22 @@ func (k msgServer) IncreaseLiquidity(ctx context.Context, msg *types.MsgIncrease
 	}
 
 	// Create a new position with combined liquidity
-	amountBaseDesired := amountBaseWithdrawn.Add(msg.AmountBase)
-	amountQuoteDesired := amountQuoteWithdrawn.Add(msg.AmountQuote)
-	minAmountBase := amountBaseWithdrawn.Add(msg.MinAmountBase)
-	minAmountQuote := amountQuoteWithdrawn.Add(msg.MinAmountQuote)
+	amountBaseDesired, err := amountBaseWithdrawn.SafeAdd(msg.AmountBase)
+	if err != nil {
+		return nil, errorsmod.Wrap(types.ErrInvalidTokenAmounts, err.Error())
+	}
+	amountQuoteDesired, err := amountQuoteWithdrawn.SafeAdd(msg.AmountQuote)
+	if err != nil {
+		return nil, errorsmod.Wrap(types.ErrInvalidTokenAmounts, err.Error())
+	}
+	minAmountBase, err := amountBaseWithdrawn.SafeAdd(msg.MinAmountBase)
+	if err != nil {
+		return nil, errorsmod.Wrap(types.ErrInvalidTokenAmounts, err.Error())
+	}
+	minAmountQuote, err := amountQuoteWithdrawn.SafeAdd(msg.MinAmountQuote)
+	if err != nil {
+		return nil, errorsmod.Wrap(types.ErrInvalidTokenAmounts, err.Error())
+	}
 
 	res, err := k.CreatePosition(ctx, &types.MsgCreatePosition{
 		Sender:         msg.Sender,
